@@ -17,6 +17,7 @@ F14 = "F14-switch-over-bundle-loses-value-on-key-change"
 F15 = "F15-switch-direct-branch-drops-empty-delta-ticks"
 F10 = "F10-nested-boundary-rebind-ticks-consumer-with-unchanged-value"
 F21 = "F21-nested-pass-through-keeps-following-deselected-target-after-silent-retarget"
+F22 = "F22-delta-value-omits-removals-when-retarget-coincides-with-target-tick"
 
 
 def gen_target(rng, wid, shape, end):
@@ -267,6 +268,21 @@ class C13:
                             v = ("value_is_prev_plus_delta", "t=%d consumer %d%s: previous view %s + delta %s gives %s but the value reads %s" % (
                                 t, c, " (retarget)" if retarget else "", pv, json.dumps(d), rep, got))
                             break
+                    # delta_value() - the raw per-tick delta of the input - must agree with the canonical capture whenever it has a value
+                    dvv = ci.get("dv")
+                    if isinstance(dvv, dict) and isinstance(d, dict) and oc.canon(dvv) != oc.canon(d):
+                        if retarget and ticked(cur, t):
+                            # known finding F22: the reference was (re-)pointed in the very cycle in which its new target ticked;
+                            # delta_value() then shows the new target's own tick - without the removals of the old target's
+                            # entries, possibly with removals of elements this consumer never held - while removed() /
+                            # removed_keys() and capture_delta() report the difference the consumer actually sees
+                            if not known:
+                                known = F22
+                                known_detail = "t=%d consumer %d (retarget in the cycle of the new target's tick): delta_value() %s, capture_delta() %s" % (t, c, json.dumps(dvv), json.dumps(d))
+                        else:
+                            v = ("delta_value_vs_capture", "t=%d consumer %d%s: delta_value() reads %s but capture_delta() / the structural accessors give %s" % (
+                                t, c, " (retarget)" if retarget else "", json.dumps(dvv), json.dumps(d)))
+                            break
                     if retarget and shape[0] == "TSD" and "modk" in ci:
                         live = sorted(str(k) for k, ch in (ci.get("ch") or {}).items() if ch.get("v"))
                         if sorted(map(str, ci["modk"])) != live:
@@ -312,9 +328,22 @@ class C13:
                     "writer 2 shape=TSB\nwscript 2 12|d={\"a\":1,\"b\":2}\nwriter 3 shape=TSBool\nwscript 3 4|d=true;;5|d=false\n"
                     "ite 10 c=3 a=1 b=2\ncons 11 10\nnpass 20 10\ncons 21 20\n")
 
+    F22_SCENARIO = ("mode higher_order\nwindow 0 10\nwriter 1 shape=TSD\nwscript 1 1|d={\"removed\":[],\"modified\":{\"2\":73,\"4\":89}}\n"
+                    "writer 2 shape=TSD\nwscript 2 5|d={\"removed\":[],\"modified\":{\"3\":59,\"5\":71,\"1\":29,\"4\":5,\"6\":71}}\n"
+                    "writer 3 shape=TSBool\nwscript 3 3|d=true;;5|d=false\nite 10 c=3 a=1 b=2\ncons 11 10\n")
+
     def demonstrate_known(self, k):
         """F14 makes every later reading of a bundle selected by switch_ meaningless, so that combination is not generated;
         the finding is re-demonstrated on every run by one fixed scenario instead (and silently disappears once repaired)."""
+        if k["id"] == F22:
+            # A = {2,4} selected at 3; at 5 the selector flips to B in the cycle of B's first tick {3,5,1,4,6}: removed_keys() / the
+            # capture name key 2 as removed, delta_value() does not
+            res = runner.run(self.F22_SCENARIO, san=self.san)
+            for e in res.events:
+                if e["k"] == "C" and e["id"] == 11 and e["t"] == 5 and e["i"] is not None:
+                    dv, d = e["i"].get("dv"), e["i"].get("d")
+                    return isinstance(dv, dict) and isinstance(d, dict) and not dv.get("removed") and bool(d.get("removed"))
+            return False
         if k["id"] == F21:
             # A valid, selected at 4; B (never valid so far) selected at 5; A ticks at 6: the direct consumer (11) is not evaluated,
             # the consumer below the nested pass-through (21) is, and reads A's new value
